@@ -70,6 +70,7 @@ def call(ctx, d, prior, script, md5s):
     # every transfer leaves two callbacks on phylib's global emitter (observation, DESIGN.md 7);
     # drop them so that thousands of calls do not slow each other down
     from phylib.utils import event as _ev
+    call.leak = len(getattr(_ev._EVENT, '_callbacks', []))
     _ev.reset()
     fin = 'absent' if not p.exists() else (
         'valid' if p.read_bytes() == GOOD else 'corrupt')
@@ -90,6 +91,7 @@ def run(ctx):
                     note='extension: checksum availability changes between requests; the P-layer '
                          'invariants are conditioned on Stable')
     cfgs = ['Gen_Download.cfg'] if ctx.quick else ['Gen_Download_thorough.cfg', 'Gen_Download_flaky_thorough.cfg']
+    leak = dict(observed=0, specified=0)
     with tmp_dir(ctx) as d:
         for cfg in cfgs:
             res, path, n = ctx.generate('Download', cfg, workers=4)
@@ -105,6 +107,9 @@ def run(ctx):
                 ctx.traces += 1
                 if 'data' in case['reqs']:
                     ctx.nontrivial += 1
+                # observation beyond C20 (never a verdict): callbacks left on the global emitter
+                leak['observed'] += getattr(call, 'leak', 0)
+                leak['specified'] += case.get('cbLeak', 0)
                 stable = len(set(case['md5s'])) == 1
                 same = (reqs, status, fin) == (case['reqs'], case['status'], case['file'])
                 if not same and stable and (status, fin, reqs.count('data')) == (
@@ -126,7 +131,7 @@ def run(ctx):
         # C->S: random longer scripts, stable and flaky
         rng = np.random.RandomState(ctx.seed + 20)
         recs = []
-        for rid in range(1, (300 if ctx.quick else 3000) + 1):
+        for rid in range(1, (1500 if ctx.quick else 8000) + 1):
             L = int(rng.randint(0, 7))
             script = [['good', 'corrupt', 'e404'][int(x)] for x in rng.randint(0, 3, size=L)]
             if rng.rand() < 0.5:
@@ -141,6 +146,13 @@ def run(ctx):
                 return
             recs.append(dict(id=rid, prior=prior, script=script, md5s=md5s, reqs=reqs,
                              status=status, file=fin))
+    # growth of the specification beyond the listed property: the candidate invariant CallbacksRestored is
+    # refuted by TLC, and the real emitter indeed keeps two callbacks per completed transfer
+    res = tlc.run('Download', 'MC_Download_leak.cfg', ctx.work, workers=2, timeout=600)
+    ctx.part(kind='observation', module='Download', cfg='MC_Download_leak.cfg',
+             note='candidate invariant CallbacksRestored (not a listed property, not claimed)',
+             refuted_by_tlc='CallbacksRestored' in res.violated,
+             callbacks_left_observed=leak['observed'], callbacks_left_specified=leak['specified'])
     for rid, clause in ctx.validate('Trace_Download', 'Trace_Download.cfg', recs):
         r = recs[rid - 1]
         if clause == 'reqs' and r['md5s'][0] == r['md5s'][1] == r['md5s'][2]:
